@@ -40,7 +40,7 @@ def main():
         for s in seeds:
             sd = os.path.join(SEEDED, s)
             v = s.rsplit("-", 1)[1]
-            if v[:2] in ("r2", "r3", "r4"):
+            if v[:2] in ("r2", "r3", "r4", "r5"):
                 v = v[2:]       # round-2 demos were written for SEED/A and SEED/B
             log = "/tmp/cf_%s_%s.log" % (worker, s)
             open(log, "w").close()
